@@ -261,14 +261,19 @@ def Run(tier):
     big = [x for x in abs_cfgs if x[1]['n'] > 3]
     rng.shuffle(big)
     abs_cfgs = (small + big)[:max(t['abstract_cap'], len(small))]
+  skip_models = bool(os.environ.get('C14_SKIP_MODELS'))   # development aid
+  if skip_models:
+    abs_cfgs, clean_m, shaped_m = abs_cfgs[:50], clean[:50], shaped[:20]
+  else:
+    clean_m, shaped_m = clean, shaped
   for part in Shard([{'id': i, 'cfg': c} for i, c in abs_cfgs], t['shards']):
     jobs.Submit('abs', 'MCConcertina', 'MCConcertina.cfg', part,
                 coverage=True)
-  for part in Shard([{'id': i, 'cfg': c} for i, c in clean], t['shards']):
+  for part in Shard([{'id': i, 'cfg': c} for i, c in clean_m], t['shards']):
     jobs.Submit('impl', 'MCConcertinaImpl', 'MCConcertinaImpl.cfg', part,
                 coverage=True)
-  if shaped:
-    part = [{'id': i, 'cfg': c} for i, c in shaped]
+  if shaped_m:
+    part = [{'id': i, 'cfg': c} for i, c in shaped_m]
     jobs.Submit('implx', 'MCConcertinaImpl', 'MCConcertinaImpl_export.cfg',
                 part)
     jobs.Submit('implf', 'MCConcertinaImpl', 'MCConcertinaImpl.cfg',
